@@ -14,6 +14,8 @@ mod fields;
 mod curves;
 mod schemes;
 mod hashes;
+mod lms;
+mod frost;
 
 use std::io::{BufRead, Write};
 use std::panic::{catch_unwind, AssertUnwindSafe};
@@ -26,6 +28,7 @@ pub struct State {
     pub fields: fields::FieldRegs,
     pub curves: curves::CurveRegs,
     pub hashes: hashes::HashRegs,
+    pub lms: lms::LmsRegs,
 }
 
 fn handle(line: &str, st: &mut State) -> util::R {
@@ -51,6 +54,18 @@ fn handle(line: &str, st: &mut State) -> util::R {
                 return Err("s <scheme> <op> ...".into());
             }
             schemes::dispatch(toks[1], toks[2], &toks[3..])
+        }
+        "l" => {
+            if toks.len() < 3 {
+                return Err("l <set> <op> ...".into());
+            }
+            lms::dispatch(toks[1], toks[2], &toks[3..], &mut st.lms)
+        }
+        "fr" => {
+            if toks.len() < 3 {
+                return Err("fr <suite> <op> ...".into());
+            }
+            frost::dispatch(toks[1], toks[2], &toks[3..])
         }
         "h" => {
             if toks.len() < 2 {
@@ -121,7 +136,7 @@ fn main() {
     let stdin = std::io::stdin();
     let stdout = std::io::stdout();
     let mut out = std::io::BufWriter::with_capacity(1 << 16, stdout.lock());
-    let mut st = State { fields: Default::default(), curves: Default::default(), hashes: Default::default() };
+    let mut st = State { fields: Default::default(), curves: Default::default(), hashes: Default::default(), lms: Default::default() };
     for line in stdin.lock().lines() {
         let line = match line {
             Ok(l) => l,
